@@ -38,6 +38,7 @@ def instances(tier):
         TR("subtract-empty-2-r%d" % bits, {"CASE": 2, "NA": 0, "NB": 2, "RBITS": bits}, desc={"what": "subtract from empty"})
         TR("same-operand-1-r%d" % bits, {"CASE": 3, "NA": 1, "RBITS": bits}, desc={"what": "union/intersect/subtract (A, A)"})
         TR("inverse-copy-reset-clear-3-r%d" % bits, {"CASE": 4, "NA": 3, "NB": 0, "RBITS": bits}, desc={"what": "inverse of empty, copy, reset, clear"})
+        TR("union_rect-degenerate-r%d" % bits, {"CASE": 7, "NA": 2, "NB": 1, "RBITS": bits, "ZW": 0, "ZH": 5}, desc={"what": "union_rect with an empty rectangle copies the source into a destination holding stale content"})
         TR("rect-and-inits-r%d" % bits, {"CASE": 5, "NA": 1, "RBITS": bits}, desc={"what": "intersect_rect, init_rect, init_with_extents"})
     if tier == "thorough":
         for al in (1, 2):
